@@ -107,7 +107,7 @@ for _p, _what in (('C02', 'oracle: ASan/UBSan silence, rule-loop counter hook <=
         steps=[dict(name='program_enumeration', py=stream_families(['growth', 'twopass', 'manyrules', 'constraint', 'action'], _p), targets=[('asan', 'c02_stream')]),
                dict(name='accepted_load_mutants', py=cached_binary('c01_load', _p, 'C01'), targets=[('asan', 'c01_load')]),
                dict(name='shipped_corpora', py=cached_binary('c03_corpus', _p, 'C02'), targets=[('asan', 'c03_corpus')])],
-        rule=_PROG_RULE + 'Additionally every C01 load mutant (single byte / field / field pair / truncation deviations of the seed fonts) that the loader accepts is shaped with 4 texts x dir {0,1,3}; and every shipped font x corpus lines/words + every substring of 1..4 characters of the first lines (texts that start inside a cluster or with a mark) x dir 0..7 x {font NULL, ppm 16}. ' + _what + '. distinct = distinct structural segment dumps (slots, glyphs, attachments, associations) observed',
+        rule=_PROG_RULE + 'Additionally every C01 load mutant (single byte / field / field pair / truncation deviations of the seed fonts) that the loader accepts is shaped with 4 texts x dir {0,1,3}; and every shipped font x corpus lines/words + every substring of 1..4 characters of the first lines (texts that start inside a cluster or with a mark) and every synthesised seed font (all S-full / S-min / Feat variants: compressed, RTL, line-end flag, pass bits, bidi step with mirroring, dense attributes, cmap edges ...) x all strings of length 0..3 over 11 characters (letters, space, marks, pseudo-glyph character, supplementary character), x dir 0..7 x {font NULL, ppm 16}. ' + _what + '. distinct = distinct structural segment dumps (slots, glyphs, attachments, associations) observed',
         level_text='Bounded exhaustive enumeration of rule programs (the font is the program) crossed with all short texts and direction flags, each executed on the real engine under sanitizers with the structural oracle evaluated on every resulting segment.',
         level_note='Trusted: ASan/UBSan, the structural oracle (src/common/segcheck.hpp), the reference UTF decoder. Program length, alphabet and text length are bounded; collision passes are not part of the program space. The four properties C02-C05 share one cached run per tree.',
         technique='exhaustive bounded program enumeration (fonts as programs) x all short inputs on the real code, invariant oracle on every final state',
